@@ -15,13 +15,12 @@ build() {
   local lock="$WORK/build.lock"
   exec 9>"$lock"
   flock 9
-  # go.mod's replace directive must point at the repository being checked
-  if ! grep -q "=> $REPO\$" go.mod; then
-    sed -i "s#^replace github.com/yuin/gopher-lua => .*#replace github.com/yuin/gopher-lua => $REPO#" go.mod
-  fi
-  cp "$REPO/go.sum" "$ROOT/go.sum" 2>/dev/null || true
+  # module file with the replace directive pointing at the repository being checked
+  sed "s#^replace github.com/yuin/gopher-lua => .*#replace github.com/yuin/gopher-lua => $REPO#" go.mod > "$WORK/go.mod"
+  cp "$REPO/go.sum" "$WORK/go.sum" 2>/dev/null || true
+  MODFLAG="-modfile=$WORK/go.mod"
   # instrumented copy of channellib.go (import "reflect" -> shim), regenerated from the current file
-  if ! go run ./cmd/instr "$REPO/channellib.go" "$WORK/channellib_instr.go" >"$WORK/instr.log" 2>&1; then
+  if ! go run $MODFLAG ./cmd/instr "$REPO/channellib.go" "$WORK/channellib_instr.go" >"$WORK/instr.log" 2>&1; then
     cat "$WORK/instr.log" >&2; echo "HARNESS-ERROR: instrumenting channellib.go failed" >&2; exit 2
   fi
   cat > "$WORK/overlay.json" <<JSON
@@ -31,7 +30,7 @@ build() {
   "$REPO/verifshim/rshim/rshim.go": "$ROOT/overlay/rshim/rshim.go"
 }}
 JSON
-  if ! go build -tags verif -overlay "$WORK/overlay.json" -o "$ROOT/bin/check" ./cmd/check >"$WORK/build.log" 2>&1; then
+  if ! go build $MODFLAG -tags verif -overlay "$WORK/overlay.json" -o "$ROOT/bin/check" ./cmd/check >"$WORK/build.log" 2>&1; then
     cat "$WORK/build.log" >&2; echo "HARNESS-ERROR: build failed" >&2; exit 2
   fi
   flock -u 9
